@@ -2,8 +2,8 @@ package checks
 
 import (
 	"fmt"
-	"strings"
 	"reflect"
+	"strings"
 	"sync"
 
 	"verif/internal/adapt"
